@@ -306,7 +306,61 @@ def analyse_export(tkey, tier):
     return res
 
 
+TWO_INIT = r"""
+import os, sys
+from naunet.console import main
+for d, args in zip(sys.argv[1:3], (%r, %r)):
+    os.chdir(d)
+    sys.argv = ["naunet", "init", "--no-interaction", *args]
+    try:
+        rc = main()
+    except SystemExit as e:
+        rc = e.code
+    if rc not in (0, None):
+        sys.exit(10 + int(rc))
+"""
+
+
+def analyse_two_in_one_process(tier):
+    """two projects initialised by one interpreter (a script or test session driving the commands): the second
+    configuration describes the second request only"""
+    import subprocess
+    import tempfile
+
+    from ..paths import child_env
+
+    res = {"case": "two-init-one-process", "ok": [], "unknown": [], "viol": [], "errors": [], "notes": [], "samples": [], "solver_s": 0.0, "programs": 0, "functions": []}
+    try:
+        req_a = dict(example_request("minimal"), replacement={"E": "e"}, binding={"#CO": 1234.5}, yields={"#CO": 0.002}, shielding={"CO": "VB88Table"}, rate_modifier={4894: "1.5e-10*zeta"},
+                     ode_modifier={"H": {"factors": ["-2.0*zeta"], "reactants": [["H"]]}})
+        req_b = example_request("minimal")
+        tgt = proj.TARGETS["dense"]
+        with tempfile.TemporaryDirectory(prefix="naunet-verif-c20-") as tmp:
+            da, db = os.path.join(tmp, "a"), os.path.join(tmp, "b")
+            for d, rq in ((da, req_a), (db, req_b)):
+                os.makedirs(d)
+                for f in rq["files"]:
+                    with open(os.path.join(d, f), "w") as fh:
+                        fh.write(open(os.path.join(rq["srcdir"], f)).read())
+            env = dict(os.environ, TQDM_DISABLE="1", PYTHONHASHSEED="0")
+            child_env(env)
+            code = TWO_INIT % (to_cli(req_a, tgt["solver"], tgt["device"], tgt["method"]), to_cli(req_b, tgt["solver"], tgt["device"], tgt["method"]))
+            r = subprocess.run([proj.PY, "-c", code, da, db], capture_output=True, text=True, env=env, timeout=600)
+            cfg = os.path.join(db, "naunet_config.toml")
+            if r.returncode != 0 or not os.path.exists(cfg):
+                res["unknown"].append((res["case"], f"init of the two projects failed ({r.returncode}): {(r.stderr or r.stdout)[-200:]}"))
+                return res
+            res["programs"] += 2
+            _toml_check(req_b, open(cfg).read(), res, "two-init-one-process:second")
+            _toml_check(req_a, open(os.path.join(da, "naunet_config.toml")).read(), res, "two-init-one-process:first")
+    except Exception as e:
+        res["errors"].append(f"{type(e).__name__}: {e}\n{traceback.format_exc()[-1500:]}")
+    return res
+
+
 def _work_inner(a):
+    if a[0] == "two-init":
+        return analyse_two_in_one_process(a[1])
     if a[0].startswith("export:"):
         return analyse_export(a[0].split(":", 1)[1], a[1])
     return analyse(*a)
@@ -327,7 +381,7 @@ def main(pid, tier):
     names = list(CASES) + (list(THOROUGH) if tier == "thorough" else [])
     ctx = mp.get_context("fork")
     with cf.ProcessPoolExecutor(max_workers=10, mp_context=ctx) as ex:
-        results = list(ex.map(_work, [(n, tier) for n in names] + [(f"export:{t}", tier) for t in ("dense", "sparse", "odeint")]))
+        results = list(ex.map(_work, [(n, tier) for n in names] + [(f"export:{t}", tier) for t in ("dense", "sparse", "odeint")] + [("two-init", tier)]))
     for r in results:
         chk.programs += r["programs"]
         chk.solver_s += r["solver_s"]
